@@ -12,6 +12,7 @@ import (
 	"io/fs"
 	"os"
 	"path/filepath"
+	"runtime"
 	"sort"
 	"strings"
 	"time"
@@ -83,6 +84,7 @@ type BehResult struct {
 	Classes  []string  `json:"classes"` // real result class per step
 	WallMS   int64     `json:"wall_ms"`
 	Checks   int       `json:"checks"` // number of oracle comparisons performed
+	Dump     string    `json:"dump,omitempty"` // goroutine dump when something hung
 }
 
 type tapeState struct {
@@ -158,6 +160,9 @@ func RunBehaviour(b *Behaviour, ks *sut.KeySet, workRoot string) (res BehResult)
 		if !has(b.Oracles, prop) {
 			return
 		}
+		if prop == "C12" && call.Op != "RemoveAll" && call.Op != "Rename" {
+			return
+		}
 		res.Findings = append(res.Findings, Finding{Prop: prop, Step: step, Call: call.String(), Msg: fmt.Sprintf(f, a...)})
 	}
 
@@ -170,6 +175,7 @@ func RunBehaviour(b *Behaviour, ks *sut.KeySet, workRoot string) (res BehResult)
 	for i := range b.Steps {
 		st := &b.Steps[i]
 		n := i + 1
+		progress.step, progress.call, progress.phase = n, st.Call, "call"
 		var cerr error
 		ok, pan := sut.Watchdog(callTimeout, func() { cerr = w.Do(st.Call) })
 		if !ok {
@@ -228,6 +234,7 @@ func RunBehaviour(b *Behaviour, ks *sut.KeySet, workRoot string) (res BehResult)
 		}
 
 		// ---- projections
+		progress.phase = "projection"
 		var issues []string
 		view, verr := sut.Walk(inst.FS, sut.ViewOpts{ReadContent: true, KeepData: true, Issues: &issues})
 		if verr != nil {
@@ -245,6 +252,15 @@ func RunBehaviour(b *Behaviour, ks *sut.KeySet, workRoot string) (res BehResult)
 			return
 		}
 
+		if os.Getenv("RUNNER_DEBUG") != "" {
+			fmt.Fprintf(os.Stderr, "--- step %d %s -> %v\n", n, st.Call, cerr)
+			for _, r := range rows {
+				fmt.Fprintf(os.Stderr, "   row %q|%q del=%v t=%c size=%d mode=%o %d:%d pos=%d.%d lk=%d.%d\n", r.Name, r.Linkname, r.Deleted, r.Typeflag, r.Size, r.Mode, r.UID, r.GID, r.Record, r.Block, r.LKRecord, r.LKBlock)
+			}
+			for i, r := range scan.Recs {
+				fmt.Fprintf(os.Stderr, "   rec #%d arch=%d off=%d hb=%d db=%d %s %q old=%q rc=%v size=%d\n", i, r.Arch, r.Off, r.HB, r.DB, r.Action, r.Name, r.Replaces, r.RC, r.Size)
+			}
+		}
 		if view != nil {
 			compareC02(b, w, st, n, view, add, &res)
 			compareC13(b, w, st, n, inst, view, rows, issues, add, &res)
@@ -431,7 +447,7 @@ func compareC13(b *Behaviour, w *World, st *Step, n int, inst *sut.Instance, vie
 }
 
 func carrying(r *sut.TapeRec) bool {
-	return r.Action == "CREATE" || (r.Action == "UPDATE" && r.RC)
+	return r.Action == "CREATE" || (r.Action == "UPDATE" && r.RC && r.Replaces == "")
 }
 
 // compareC05: standard tar stream; with the plain pipeline the member data of each live
@@ -831,7 +847,7 @@ func cmdReplay(args []string) int {
 		}
 		fmt.Fprintf(bw, "{\"start\":%q}\n", b.ID)
 		bw.Flush()
-		r := RunBehaviour(b, ks, work)
+		r := runGuarded(b, ks, work)
 		line, _ := json.Marshal(r)
 		bw.Write(line)
 		bw.WriteString("\n")
@@ -842,4 +858,49 @@ func cmdReplay(args []string) int {
 		}
 	}
 	return 0
+}
+
+// behaviourTimeout bounds one behaviour including all projections; the code under test can
+// block inside a read issued by the projection (a stream goroutine that never finishes).
+const behaviourTimeout = 3 * time.Minute
+
+var progress struct {
+	step  int
+	call  Call
+	phase string
+}
+
+func runGuarded(b *Behaviour, ks *sut.KeySet, work string) BehResult {
+	done := make(chan BehResult, 1)
+	go func() { done <- RunBehaviour(b, ks, work) }()
+	select {
+	case r := <-done:
+		return r
+	case <-time.After(behaviourTimeout):
+		r := BehResult{ID: b.ID, Steps: len(b.Steps), Hang: true, Findings: []Finding{}, Classes: []string{}}
+		r.Dump = goroutineDump()
+		for _, p := range []string{"C10", "C02"} {
+			if has(b.Oracles, p) {
+				r.Findings = append(r.Findings, Finding{Prop: p, Step: progress.step, Call: progress.call.String(),
+					Msg: "observing the filesystem after this call did not return (" + progress.phase + ")"})
+			}
+		}
+		return r
+	}
+}
+
+func goroutineDump() string {
+	buf := make([]byte, 1<<20)
+	n := runtime.Stack(buf, true)
+	out := []string{}
+	for _, g := range strings.Split(string(buf[:n]), "\n\n") {
+		if strings.Contains(g, "pojntfx/stfs") {
+			lines := strings.Split(g, "\n")
+			if len(lines) > 24 {
+				lines = lines[:24]
+			}
+			out = append(out, strings.Join(lines, "\n"))
+		}
+	}
+	return strings.Join(out, "\n\n")
 }
